@@ -209,13 +209,27 @@ impl Assembler {
         let mut proc_roots = Vec::new();
         context.begin_module(path.unwrap_or(&LibraryPath::anon_path()), module)?;
 
-        // process all re-exported procedures
+        // make sure all re-exported procedures are loaded into the procedure cache; aliases for
+        // them are registered only after the local procedures of this module have been compiled
+        // so that a module which fails to compile does not leave its aliases in the cache
         for reexporteed_proc in module.reexported_procs().iter() {
-            // make sure the re-exported procedure is loaded into the procedure cache
             let ref_proc_id = reexporteed_proc.proc_id();
             self.ensure_procedure_is_in_cache(&ref_proc_id, context).map_err(|_| {
                 AssemblyError::ReExportedProcModuleNotFound(reexporteed_proc.clone())
             })?;
+        }
+
+        // compile all local (internal end exported) procedures in the module; once the compilation
+        // is complete, we get all compiled procedures (and their combined callset) from the
+        // context
+        for proc_ast in module.procs().iter() {
+            self.compile_procedure(proc_ast, context)?;
+        }
+        let (module_procs, module_callset) = context.complete_module()?;
+
+        // process all re-exported procedures
+        for reexporteed_proc in module.reexported_procs().iter() {
+            let ref_proc_id = reexporteed_proc.proc_id();
 
             // if the library path is provided, build procedure ID for the alias and add it to the
             // procedure cache
@@ -238,14 +252,6 @@ impl Assembler {
             // from this module
             proc_roots.push(proc_mast_root);
         }
-
-        // compile all local (internal end exported) procedures in the module; once the compilation
-        // is complete, we get all compiled procedures (and their combined callset) from the
-        // context
-        for proc_ast in module.procs().iter() {
-            self.compile_procedure(proc_ast, context)?;
-        }
-        let (module_procs, module_callset) = context.complete_module()?;
 
         // add the compiled procedures to the assembler's cache. the procedures are added to the
         // cache only if:
